@@ -10,10 +10,18 @@
    * LSBlock   : design matrix / right-hand sides / solution captured at a least-squares block (tensor ring ALS,
                  regressors, CMTF): normal equations hold for the implementation's solution, objective not above
                  the objective of the previous iterate.
+   * SpecCert  : the spectral certificate of C07_ky_fan_bound / C07_hooi_*_descent on a recorded HOOI block: the matrix Y handed to the
+                 SVD, an independently computed eigen-decomposition (Q, lam) of Y Y' and the implementation's factor U: Q'Q = QQ' = I,
+                 Q'YY'Q = diag(lam), lam sorted, U'U = I, and U ATTAINS the sum of the leading eigenvalues (all toleranced).
+   * ProcCert  : the thin-SVD certificate of C07_procrustes_bound / C07_parafac2_projection_descent on a recorded PARAFAC2 projection:
+                 slice X, M = B diag(a_i) C', Z = X M' formed exactly, (A, sg, B) with unit columns / B'B = I / sg >= 0 / Z = A diag(sg) B',
+                 the implementation's projection P has orthonormal columns and ATTAINS sum(sg) = <P, Z>.
+   * CPReport  : the error parafac reports for an iterate: the model's | ||X||^2 + cp_norm^2 - 2 iprod | equals the exact squared error
+                 (instance of C07_cp_reported_is_sqerr, exactly) and is (reported relative error * ||X||)^2 up to rounding.
    * Norm      : cp_normalize on states of normalize_factors runs (and states with an all-zero column): model == implementation,
                  squared error exactly unchanged by the model's normalisation. *)
 From Coq Require Import List Arith ZArith QArith Qabs Bool.
-From TLV Require Import Base.Shape Base.PyList Base.Tensor Base.Ops Model.Descent Corr.Common.
+From TLV Require Import Base.Shape Base.PyList Base.Tensor Base.Ops Model.Descent Model.DescentReport Corr.Common.
 Import ListNotations.
 
 Definition qmat := list (list Q).
@@ -248,11 +256,62 @@ Definition tr_agree (c : trcase) : bool :=
      forall_lt (ra * rb) (fun j =>
        qle (Qabs (tr_sub Qops cs idx d (j mod rb) (j / rb) - mget Qops (tr_design c) row j)) (tol_match * 1 + tol_match * Qabs (mget Qops (tr_design c) row j))))).
 
+(* ---------- certificates of the two spectral oracles (hypotheses of C07_hooi_block_descent / C07_parafac2_projection_descent) ---------- *)
+Definition qdot (n : nat) (f g : nat -> Q) : Q := gsum Qops n (fun i => Qred (f i * g i)).
+Definition qdelta (a b : nat) : Q := if Nat.eqb a b then 1 else 0.
+Record speccase := mkSp { s_m : nat; s_p : nat; s_r : nat; s_Y : qmat; s_Q : qmat; s_lam : list Q; s_U : qmat }.
+Definition spec_agree (c : speccase) : bool :=
+  let m := s_m c in let p := s_p c in let r := s_r c in let Y := s_Y c in let Qm := s_Q c in let U := s_U c in
+  let ny := gsum Qops m (fun i => gsum Qops p (fun cc => Qred (mget Qops Y i cc * mget Qops Y i cc))) in
+  (* Q'Y once *)
+  let QtY := tab2 m p (fun i cc => qdot m (fun t => mget Qops Qm t i) (fun t => mget Qops Y t cc)) in
+  let UtY2 := gsum Qops r (fun a => gsum Qops p (fun cc =>
+                 let v := qdot m (fun t => mget Qops U t a) (fun t => mget Qops Y t cc) in Qred (v * v))) in
+  Nat.leb r m &&
+  forall_lt m (fun i => forall_lt m (fun j =>
+    qle (Qabs (qdot m (fun t => mget Qops Qm t i) (fun t => mget Qops Qm t j) - qdelta i j)) tol_cert &&
+    qle (Qabs (qdot m (fun t => mget Qops Qm i t) (fun t => mget Qops Qm j t) - qdelta i j)) tol_cert &&
+    qle (Qabs (qdot p (fun cc => mget Qops QtY i cc) (fun cc => mget Qops QtY j cc) - qdelta i j * nth i (s_lam c) 0)) (tol_cert * ny + atol_tiny) &&
+    (negb (Nat.leb i j) || qle (nth j (s_lam c) 0) (nth i (s_lam c) 0 + tol_cert * ny)))) &&
+  forall_lt r (fun a => forall_lt r (fun b =>
+    qle (Qabs (qdot m (fun t => mget Qops U t a) (fun t => mget Qops U t b) - qdelta a b)) tol_cert)) &&
+  qle (gsum Qops r (fun i => nth i (s_lam c) 0)) (UtY2 + tol_cert * ny + atol_tiny).
+
+Record proccase := mkPc { p_J : nat; p_R : nat; p_K : nat; p_X : qmat; p_M : qmat; p_A : qmat; p_sg : list Q; p_B : qmat; p_P : qmat }.
+Definition proc_agree (c : proccase) : bool :=
+  let J := p_J c in let R' := p_R c in let K := p_K c in
+  let Z := tab2 J R' (fun i j => qdot K (fun cc => mget Qops (p_X c) i cc) (fun cc => mget Qops (p_M c) j cc)) in     (* X M' *)
+  let nz := qsumabs J (fun i => qsumabs R' (fun j => mget Qops Z i j)) in
+  let ssg := gsum Qops R' (fun k => nth k (p_sg c) 0) in
+  let PZ := gsum Qops J (fun i => gsum Qops R' (fun j => Qred (mget Qops (p_P c) i j * mget Qops Z i j))) in
+  forall_lt R' (fun k =>
+    qle (Qabs (qdot J (fun i => mget Qops (p_A c) i k) (fun i => mget Qops (p_A c) i k) - 1)) tol_cert &&
+    qle 0 (nth k (p_sg c) 0) &&
+    forall_lt R' (fun l =>
+      qle (Qabs (qdot R' (fun i => mget Qops (p_B c) i k) (fun i => mget Qops (p_B c) i l) - qdelta k l)) tol_cert &&
+      qle (Qabs (qdot J (fun i => mget Qops (p_P c) i k) (fun i => mget Qops (p_P c) i l) - qdelta k l)) tol_cert)) &&
+  forall_lt J (fun i => forall_lt R' (fun j =>
+    qle (Qabs (mget Qops Z i j - gsum Qops R' (fun k => Qred (Qred (mget Qops (p_A c) i k * nth k (p_sg c) 0) * mget Qops (p_B c) j k))))
+        (tol_cert * nz + atol_tiny))) &&
+  qle ssg (PZ + tol_cert * (ssg + nz) + atol_tiny).
+
+(* the error parafac reports for an iterate (w, facs): rel = sqrt(| ||X||^2 + cp_norm^2 - 2 iprod |) / ||X|| *)
+Record repcase := mkRp { e_X : tensor Q; e_w : list Q; e_facs : list qmat; e_k : nat; e_rank : nat; e_rel : Q }.
+Definition rep_agree (c : repcase) : bool :=
+  let X := e_X c in
+  let normX2 := tnormsq Qops X in
+  let rep := cp_err2_reported Qops X (e_w c) (e_facs c) (e_k c) (e_rank c) in
+  let sq := cp_sqerr Qops X (e_w c) (e_facs c) (e_rank c) in
+  Qeq_bool rep sq &&
+  qle (Qabs (Qred (Qred (e_rel c * e_rel c) * normX2) - sq)) (tol_cert * normX2 + tol_cert * sq).
+
 Inductive body := CPBlock (c : cpcase) | Hals (c : halscase) | LSBlock (c : lscase) | Norm (c : normcase) | RegBlock (c : regcase)
-                | TkBlock (c : tkcase) | CmtfBlock (c : cmtfcase) | TkRegBlock (c : tkregcase) | TRBlock (c : trcase).
+                | TkBlock (c : tkcase) | CmtfBlock (c : cmtfcase) | TkRegBlock (c : tkregcase) | TRBlock (c : trcase)
+                | SpecCert (c : speccase) | ProcCert (c : proccase) | CPReport (c : repcase).
 Definition case := (nat * body)%type.
 Definition agree (c : case) : bool :=
   match snd c with CPBlock b => cp_agree b | Hals b => hals_agree b | LSBlock b => ls_agree b | Norm b => norm_agree b | RegBlock b => reg_agree b
-  | TkBlock b => tk_agree b | CmtfBlock b => cmtf_agree b | TkRegBlock b => tkreg_agree b | TRBlock b => tr_agree b end.
+  | TkBlock b => tk_agree b | CmtfBlock b => cmtf_agree b | TkRegBlock b => tkreg_agree b | TRBlock b => tr_agree b
+  | SpecCert b => spec_agree b | ProcCert b => proc_agree b | CPReport b => rep_agree b end.
 Definition ident (c : case) : nat := fst c.
 Definition failing := failing_ids agree ident.
